@@ -8,7 +8,7 @@ from ..engine import simple_run
 ROWS = [['.'], ['*', '/', '%'], ['+', '-', '&'], ['=', '!=', '<', '<=', '>', '>=', 'in', '~>'], ['and'], ['or']]
 LEVEL = {op: i for i, row in enumerate(ROWS) for op in row}
 BINOPS = [op for row in ROWS[1:] for op in row]
-OPERANDS = ['a', 'b', '$x', '1', '2.5', '"s"', '$f(1)', 'true', 'c']
+OPERANDS = ['a', 'b', '$x', '1', '2.5', '"s"', '$f(1)', 'true', 'c', '$and', '$or', '$in', '$true', '$null', 'and', 'or', 'in', '$', '$$', 'é', '`x y`', 'null', '$function']
 
 def spec_group(operands, ops):
     """fully parenthesised text of the chain per the property: higher rows bind tighter, equal rows
@@ -87,6 +87,15 @@ def cases(tier, seed):
     for s in ['abc', '', 'a b', 'x\\ny', 'é', '\\u0041', 'a/b', 'it', '$x', '1+1']:
         a = add('"%s"' % s, ('quote',)); add("'%s'" % s, ('quote',), pair=a)
         a = add('a = "%s" & b' % s, ('quote',)); add("a = '%s' & b" % s, ('quote',), pair=a)
+    # every word that is a keyword or literal name, as a field name, as a variable name and next to every operator
+    words = ['and', 'or', 'in', 'true', 'false', 'null', 'function']
+    for w in words:
+        for op in BINOPS:
+            add('$%s %s $%s' % (w, op, w), ('keyword-names',)); add('a %s $%s' % (op, w), ('keyword-names',)); add('$%s %s 1' % (w, op), ('keyword-names',))
+            if w in ('and', 'or', 'in'):
+                add('%s %s %s' % (w, op, w), ('keyword-names',)); add('x.%s %s 2' % (w, op), ('keyword-names',))
+        for e in ['$%s', '$%s.x[0]', '$%s := 1', '($%s := 2; $%s)', '$%s(1)', 'a.$%s', '[$%s]', '{"k": $%s}', 'a $%s b', '$%s ? 1 : 2', 'function($%s){$%s}', '$%s ~> $f', 'a[$%s]', 'a^($%s)']:
+            add(e.replace('%s', w), ('keyword-names',))
     # regex vs division; and/or/in as names
     for e in ['a / b / c', 'a /b/ c', '(/b/)', '[/b/, 1 / 2]', '$match(s, /a/i)', 'a = /b/', '1 / 2', '$x / $y / $z', 'a / /b/', '(a) / b', 'a[0] / b', 'f() / 2 / 3', '"s" / 2', '/a/ / /b/',
               'and', 'or', 'in', 'and.or', 'and and or', 'or or or', 'in in in', 'a.and', 'a.in.b', 'and = or', '$x.and', 'and[0]', 'or{"a":1}', 'and(1)', '[and, or, in]', '{"and": or}', 'a and and', 'in and in']:
